@@ -303,6 +303,15 @@ func Overlay(dst, src *Tree) (*Tree, map[string]bool) {
 // equals the source file's at the same path has the same bytes. filterUid/Gid
 // (when ok) are the owner the receiver's filter rewrites source stats to.
 func AlignIdentical(src, dst *Tree, rewriteOwner bool, uid, gid uint32) int {
+	if !rewriteOwner {
+		return AlignIdenticalBy(src, dst, nil)
+	}
+	return AlignIdenticalBy(src, dst, func(uint32, uint32) (uint32, uint32) { return uid, gid })
+}
+
+// AlignIdenticalBy is AlignIdentical for a receiver that rewrites owners with
+// `owner` (nil: not at all) before comparing.
+func AlignIdenticalBy(src, dst *Tree, owner func(uid, gid uint32) (uint32, uint32)) int {
 	if dst == nil {
 		return 0
 	}
@@ -318,8 +327,8 @@ func AlignIdentical(src, dst *Tree, rewriteOwner bool, uid, gid uint32) int {
 			continue
 		}
 		su, sg := s.Uid, s.Gid
-		if rewriteOwner {
-			su, sg = uid, gid
+		if owner != nil {
+			su, sg = owner(su, sg)
 		}
 		if s.Perm == d.Perm && su == d.Uid && sg == d.Gid && s.Size == d.Size && s.Mtime == d.Mtime && s.Seed != d.Seed {
 			d.Seed = s.Seed
